@@ -121,6 +121,18 @@ def ruleString (r : Bc7Rule) : String :=
   let al := match r.alpha with | some (lo, hi) => s!"{lo},{hi}" | none => "*"
   s!"{if r.modes.isEmpty then "!" else digits r.modes}.{rots}.{sel}.{pb}.{al}"
 
+/-- BC2 explicit alpha of a partial block: the nibbles of positions outside the image are blanked on both sides of the
+tie (which pixel the padding repeats is outside the property; `Enc13.blockSrc` still says what the code does) -/
+def maskOutside (f : Option Fmt) (inside : List Bool) (pieces : List (Nat × List Nat)) : List (Nat × List Nat) :=
+  if f = some .bc2 ∨ f = some .bc2p then
+    pieces.map fun pc =>
+      if pc.1 = 0 then
+        (0, (List.range pc.2.length).map fun k =>
+          let v := pc.2.getD k 0
+          (if inside.getD (2 * k) false then v % 16 else 0) + (if inside.getD (2 * k + 1) false then v / 16 * 16 else 0))
+      else pc
+  else pieces
+
 def runC13 (line : String) : String :=
   match toks line with
   | [cls, f, q, m, d, w, h, inprec, inhex, wit, ok3, hex] =>
@@ -153,6 +165,8 @@ def runC13 (line : String) : String :=
         let xy := blockSrc w h (b % wb) (b / wb) p
         let o := (xy.2 * w + xy.1) * 4
         ⟨ia.getD o 0, ia.getD (o + 1) 0, ia.getD (o + 2) 0, ia.getD (o + 3) 0⟩
+      let inside (b : Nat) : List Bool := (List.range 16).map fun p =>
+        decide ((b % wb) * 4 + p % 4 < w ∧ (b / wb) * 4 + p / 4 < h)
       let dc := d = "C" ∨ d = "B"
       let da := d = "A" ∨ d = "B"
       -- predictions of the discrete encoder model (bytes)
@@ -160,7 +174,7 @@ def runC13 (line : String) : String :=
         match img with
         | some ia =>
           ";".intercalate ((List.range nb).map fun b =>
-            let s := predString (predictBlock fmt qual dc da (pixels ia b))
+            let s := predString (maskOutside fmt (inside b) (predictBlock fmt qual dc da (pixels ia b)))
             if s = "" then "-" else s)
         | none => "-"
       -- BC7: header fields read back from the emitted block, and what the discrete rules allow for the input block
@@ -172,8 +186,8 @@ def runC13 (line : String) : String :=
             let obs := ";".intercalate (fs.map obsString)
             let rules := ";".intercalate ((List.range nb).map fun b =>
               match fs.getD b none with
-              | some f => ruleString (bc7Rule qual (pixels ia b) f.mode f.part f.rot)
-              | none => ruleString (bc7Rule qual (pixels ia b) 8 0 0))
+              | some f => ruleString (bc7Rule qual (pixels ia b) (inside b) f.mode f.part f.rot)
+              | none => ruleString (bc7Rule qual (pixels ia b) (inside b) 8 0 0))
             obs ++ "@" ++ rules
           else "-"
         | none => "-"
